@@ -82,8 +82,9 @@ Clauses(r) ==
   ELSE IF r.op = "lin" THEN
      LET fn == ConvFP(r.n)
          fd == ConvFP(r.d)
-     IN << <<"numerator",   PairsPoly(r.on) = ConstTaps(LinDef(fn))>>,
-           <<"denominator", PairsPoly(r.od) = ConstTaps(LinDef(fd))>>,
+         w  == LinShift(LinDef(fn), LinDef(fd))
+     IN << <<"numerator",   PairsPoly(r.on) = ConstTaps(w.n)>>,
+           <<"denominator", PairsPoly(r.od) = ConstTaps(w.d)>>,
            <<"model",       LinOp(fn) = LinDef(fn) /\ LinOp(fd) = LinDef(fd)>> >>
   ELSE IF r.op = "design" THEN
      LET s    == DesignShape(r.fam, r.name, ToSet(r.S))
